@@ -12,7 +12,10 @@ import (
 	"go/parser"
 	"go/token"
 	"go/types"
+	"math"
+	"regexp"
 	"sort"
+	"strconv"
 	"strings"
 
 	"golang.org/x/tools/go/ssa"
@@ -212,6 +215,26 @@ func (n *Normer) CondOf(v ssa.Value) *Cond {
 					} else if q := firstOpenPhi(x.Y, n, 0); q != nil {
 						p = q
 					}
+					if p == nil {
+						// ... or delivered by a helper with several returns (limit := maxFor(kind))
+						var open ssa.Value
+						if o := firstOpen(x.X, n, 0); o != nil {
+							open = o
+						} else if o := firstOpen(x.Y, n, 0); o != nil {
+							open = o
+						}
+						if call, idx, okC := expandableCall(open, n); okC && open != nil && smallConstSelector(call.Common().StaticCallee(), idx) {
+							n.phiDepth++
+							total := cFalse
+							for _, sub := range n.callCases(call, idx, 0) {
+								n.env = append(n.env, map[ssa.Value]Poly{open: sub.val})
+								total = cOr(total, cAnd(sub.cond, n.CondOf(v)))
+								n.env = n.env[:len(n.env)-1]
+							}
+							n.phiDepth--
+							return total
+						}
+					}
 					if p != nil && len(p.Edges) >= 2 && p.Block().Idom() != nil {
 						blk := p.Block()
 						n.phiDepth++
@@ -281,6 +304,25 @@ func (n *Normer) CondOf(v ssa.Value) *Cond {
 				return c
 			}
 			return &Cond{Kind: CBool, Name: fmt.Sprintf("Cmp%s(%s,%s)", x.Op, as, bs), Opaque: op}
+		}
+	case *ssa.Parameter:
+		// a boolean parameter in a known calling context is the condition passed for it
+		if _, bound := n.Bind[x]; !bound && isBoolType(x.Type()) && n.phiDepth < 3 {
+			inEnv := false
+			for i := len(n.env) - 1; i >= 0; i-- {
+				if _, ok := n.env[i][x]; ok {
+					inEnv = true
+				}
+			}
+			if arg, ctx, ok := n.paramArg(x); ok && !inEnv {
+				saved := n.Ctx
+				n.Ctx = ctx
+				n.phiDepth++
+				c := n.CondOf(arg)
+				n.phiDepth--
+				n.Ctx = saved
+				return c
+			}
 		}
 	case *ssa.Phi:
 		if i, ok := n.PhiChoice[x]; ok {
@@ -549,9 +591,18 @@ func CondRelation(a, b *Cond) (aImpB, bImpA bool, witness string) {
 		for t := range ts {
 			set[t-1], set[t], set[t+1] = true, true, true
 		}
+		// a length is never negative, the remainder of a length by k lies in 0..k-1: values outside
+		// are not assignments of the program
+		lo, hi, bounded := baseDomain(bn)
 		var vals []int64
 		for v := range set {
+			if bounded && (v < lo || v > hi) {
+				continue
+			}
 			vals = append(vals, v)
+		}
+		if len(vals) == 0 {
+			vals = append(vals, lo)
 		}
 		sort.Slice(vals, func(i, j int) bool { return vals[i] < vals[j] })
 		reps[bn] = vals
@@ -793,4 +844,43 @@ func definitelyNonNilError(v ssa.Value) bool {
 		}
 	}
 	return false
+}
+
+var reLenBase = regexp.MustCompile(`^len\([^()]*\)$`)
+var reModLenBase = regexp.MustCompile(`^Mod\(len\([^()]*\),(\d+)\)$`)
+
+// baseDomain: the feasible range of a comparison base that is a plain length or the remainder of a
+// length by a positive constant.
+func baseDomain(base string) (lo, hi int64, ok bool) {
+	if reLenBase.MatchString(base) {
+		return 0, math.MaxInt64, true
+	}
+	if m := reModLenBase.FindStringSubmatch(base); m != nil {
+		k, err := strconv.ParseInt(m[1], 10, 64)
+		if err == nil && k > 0 {
+			return 0, k - 1, true
+		}
+	}
+	return 0, 0, false
+}
+
+// smallConstSelector: a loop-free helper with at most three returns whose result idx is a constant on
+// every return (a limit or a size picked by a flag).
+func smallConstSelector(fn *ssa.Function, idx int) bool {
+	if fn == nil || !pureLoopFree(fn) {
+		return false
+	}
+	rets := returnsOf(fn)
+	if len(rets) < 2 || len(rets) > 3 {
+		return false
+	}
+	for _, r := range rets {
+		if idx >= len(r.Results) {
+			return false
+		}
+		if _, isC := r.Results[idx].(*ssa.Const); !isC {
+			return false
+		}
+	}
+	return true
 }
